@@ -143,7 +143,12 @@ func (a Alpha) Ops(w *World, s *Spec) []Op {
 				ops = append(ops, Op{Kind: OpExportClose, Ver: v})
 			}
 		}
-		if open == 0 {
+		total := 0
+		for _, c := range m.Pins {
+			total += c
+		}
+		_ = open
+		if total < 2 { // at most two exports open at a time (also two on the same version)
 			for _, v := range m.Versions() {
 				ops = append(ops, Op{Kind: OpExportOpen, Ver: v})
 			}
